@@ -40,6 +40,8 @@ pub struct Knobs {
   pub spiky: bool,
   /// some bodies end in a word with 2-, 3- or 4-byte characters (edit distances count characters)
   pub unicode_words: bool,
+  /// always run the pass that deletes most of the first segment afterwards
+  pub heavy_deletion: bool,
 }
 
 impl Default for Knobs {
@@ -54,6 +56,7 @@ impl Default for Knobs {
       long_postings: false,
       spiky: false,
       unicode_words: false,
+      heavy_deletion: false,
     }
   }
 }
@@ -317,7 +320,8 @@ pub fn build_index(r: &mut StdRng, k: &Knobs, storage: &str) -> Result<Built> {
   }
   // sometimes a segment loses most of its documents afterwards: its postings then outnumber
   // its live documents (statistics with deletions, candidates among tombstones)
-  if k.deletions && n_commits > 0 && chance(r, 1, 3) {
+  let heavy = k.deletions && n_commits > 0 && chance(r, 1, 3);
+  if heavy || (k.deletions && n_commits > 0 && k.heavy_deletion) {
     let victims: Vec<String> = ids[..(n_docs / n_commits).max(1)].to_vec();
     let keep = r.gen_range(0..=victims.len() / 4);
     for id in victims.iter().skip(keep) {
